@@ -118,6 +118,55 @@ def register(M):
         ex.write_path(cell, path, v.set(cells=v.cells + (Cell(a[1]),)))
         return UNIT
 
+    # FuturesOrdered: the same set of concurrently polled futures, outputs handed out strictly in push order (an output
+    # of a later pushed future is buffered until everything pushed before it has been handed out)
+    @reg('FuturesOrdered::new')
+    def _(ex, info, a, dty):
+        return Obj('futs', cells=(), ordered=True, order=(), outs=())
+
+    @reg('FuturesOrdered::is_empty')
+    def _(ex, info, a, dty):
+        return z3.BoolVal(len(futs_at(ex, a[0])[2].order) == 0)
+
+    @reg('FuturesOrdered::len')
+    def _(ex, info, a, dty):
+        return bv(len(futs_at(ex, a[0])[2].order))
+
+    @reg('FuturesOrdered::push_back', 'FuturesOrdered::push')
+    def _(ex, info, a, dty):
+        cell, path, v = futs_at(ex, a[0])
+        c = Cell(a[1])
+        ex.write_path(cell, path, v.set(cells=v.cells + (c,), order=v.order + (c,)))
+        return UNIT
+
+    def poll_ordered(ex, cell, path, s, dty):
+        if not s.order:
+            return M.poll_ready(dty, M.none('Option<?>'))
+        cx = Ref(Cell(Lazy('Context', 'cx')), ())
+
+        def hand_out(cur):
+            head = cur.order[0]
+            for (c, val) in cur.outs:
+                if c is head:
+                    ex.write_path(cell, path, cur.set(order=cur.order[1:], outs=tuple(x for x in cur.outs if x[0] is not c)))
+                    return M.poll_ready(dty, M.some('Option<?>', val))
+            return None
+        r0 = hand_out(s)
+        if r0 is not None:
+            return r0
+        for c in list(s.cells):
+            r = ex.materialize(M.poll_cell(ex, c, cx, 'Poll<?>'))
+            cur = ex.read_path(cell, path)
+            if ex.branch(M.discr(ex, r) == bv(0)):
+                cur = cur.set(cells=tuple(x for x in cur.cells if x is not c), outs=cur.outs + ((c, ex.field_of(r, 0, 0, '?')),))
+                ex.write_path(cell, path, cur)
+                r0 = hand_out(cur)
+                if r0 is not None:
+                    return r0
+                continue
+            ex.write_path(cell, path, cur.set(cells=tuple(x for x in cur.cells if x is not c) + (c,)))
+        return M.poll_pending(dty)
+
     prev_poll_stream = M.poll_stream
 
     def poll_stream(ex, sref, dty):
@@ -126,6 +175,8 @@ def register(M):
         if isinstance(s, Adt) and (None, 0) in s.fields:
             cell, path = ex.deref(s)
             s = ex.read_path(cell, path)
+        if isinstance(s, Obj) and s.kind == 'futs' and getattr(s, 'ordered', False):
+            return poll_ordered(ex, cell, path, s, dty)
         if isinstance(s, Obj) and s.kind == 'futs':
             if not s.cells:
                 return M.poll_ready(dty, M.none('Option<?>'))
@@ -261,6 +312,7 @@ def register(M):
                 ex.add(z3.ULT(c, bv(1 << ex.env['time_bound_bits'])))
         return c
     M.clock = clock
+    M.tick = lambda ex: tick(ex)
 
     def tick(ex):
         old = clock(ex)
